@@ -454,6 +454,58 @@ func init() {
 					})
 				}
 			}
+			// several violations on one and the same entity: every one of them is reported
+			same := []struct {
+				id    string
+				apply func(c *Cfg)
+				names [][]string
+			}{
+				{"param-name-and-kind", func(c *Cfg) { c.Params = append(c.Params, Param{"1bad", Raw("[1, 2]")}) }, [][]string{{`"1bad"`, "invalid name"}, {`"1bad"`, "unsupported type"}}},
+				{"service-name-and-attributes", func(c *Cfg) {
+					c.Services = append(c.Services, Service{Name: "bad name", Getter: P("1g"), Type: P("**"), Constructor: P("pk."), Args: []any{Raw("[1]")}, Fields: []KV{{"1f", Raw("{}")}}, Tags: []Tag{{Name: "x y"}, {Name: "x y"}}, Calls: []Call{{Method: "1m", Args: []any{Raw("[2]")}}}})
+				}, [][]string{{`"bad name"`, "invalid name"}, {`"bad name"`, "getter"}, {`"bad name"`, "type"}, {`"bad name"`, "constructor"}, {`"bad name"`, "arg 0"}, {`"bad name"`, "fields", `"1f"`, "invalid"}, {`"bad name"`, "fields", `"1f"`, "unsupported"}, {`"bad name"`, "tags", "0:"}, {`"bad name"`, "tags", "1:"}, {`"bad name"`, "duplicate"}, {`"bad name"`, "calls", "method"}, {`"bad name"`, "calls", "arguments"}}},
+				{"getter-three-ways", func(c *Cfg) {
+					c.Services = append(c.Services, Service{Name: "g3", Constructor: P("pk.New"), Getter: P("Must 1 InContext")})
+				}, [][]string{{`"g3"`, `prefix "Must"`}, {`"g3"`, `suffix "InContext"`}, {`"g3"`, "getter: invalid"}}},
+				{"import-alias-and-path", func(c *Cfg) { c.Meta.Imports = append(c.Meta.Imports, KV{"1al", "/bad"}) }, [][]string{{"imports", `invalid import "/bad"`}, {"imports", `invalid alias "1al"`}}},
+				{"function-name-and-target", func(c *Cfg) { c.Meta.Functions = append(c.Meta.Functions, KV{"f-n", "pk."}) }, [][]string{{"functions", `invalid function "f-n"`}, {"functions", `invalid go function "pk."`}}},
+				{"decorator-all", func(c *Cfg) {
+					c.Decorators = append(c.Decorators, Decorator{Tag: "bad tag", Decorator: "1x", Args: []any{Raw("[1]"), Raw("{}")}})
+				}, [][]string{{"decorators", "tag"}, {"decorators", "method"}, {"decorators", "arguments", "0:"}, {"decorators", "arguments", "1:"}}},
+			}
+			for _, sm := range same {
+				sm := sm
+				w.Case("same-entity/"+sm.id, func(c *C) {
+					cfg := c11base()
+					sm.apply(cfg)
+					files := []File{{"c.yaml", cfg.YAML()}}
+					br := w.Build(files)
+					c.Distinct("all", c.ID)
+					c.Distinct("nontrivial", c.ID)
+					if br.OK() {
+						c.Violation("defects-accepted:"+sm.id, "configuration with several defects on one entity accepted", FilesMap(files), nil)
+						return
+					}
+					lines := ErrorLines(br.Out)
+					for _, names := range sm.names {
+						found := false
+						for _, l := range lines {
+							all := true
+							for _, n := range names {
+								if !strings.Contains(l, n) {
+									all = false
+								}
+							}
+							if all {
+								found = true
+							}
+						}
+						if !found {
+							c.Violation("defect-not-reported:same-entity:"+sm.id, fmt.Sprintf("one of several violations on the same entity is not reported (no diagnostic contains %v):\n%s", names, strings.Join(lines, "\n")), FilesMap(files), nil)
+						}
+					}
+				})
+			}
 			multi("validate", c11defects(), "compiler.StepValidateInput:")
 			multi("compile", c11compileDefects(), "compiler.StepCompile")
 		},
